@@ -19,6 +19,8 @@ import (
 	"sync"
 	"syscall"
 	"time"
+
+	"github.com/lugu/qiloop/bus/util/vsync"
 )
 
 // Ctx is one worker invocation (one shard segment of one property check).
@@ -383,6 +385,13 @@ func (c *Ctx) WantSample() bool {
 }
 
 func (c *Ctx) snapLocked(final bool) {
+	if y, s, l := vsync.Stats(); y+s+l > 0 {
+		// perturbations injected so far at the lock boundaries of lugu/qiloop's bus packages (approximate:
+		// the hook counts without synchronization so as not to hide races from the race detector)
+		c.counters["lock_boundary_yields"] = int64(y)
+		c.counters["lock_boundary_short_sleeps"] = int64(s)
+		c.counters["lock_boundary_long_sleeps"] = int64(l)
+	}
 	m := map[string]interface{}{"t": "snap", "evals": c.evals, "viols": c.viols, "incon": c.incon,
 		"distinct": len(c.seen), "counters": c.counters, "samples": c.samples, "notes": c.notes, "violkeys": c.violKeys}
 	if final {
